@@ -165,10 +165,11 @@ class ListV(V):
 
 
 class Pad(V):
-    _f = ("base", "left", "right", "mode")
+    """np.pad along the (last) axis; ``rows`` = the base is 2-d and only its last axis is padded (every row separately)."""
+    _f = ("base", "left", "right", "mode", "rows")
 
-    def __init__(self, base, left, right, mode):
-        self.base, self.left, self.right, self.mode = base, left, right, mode
+    def __init__(self, base, left, right, mode, rows=False):
+        self.base, self.left, self.right, self.mode, self.rows = base, left, right, mode, rows
 
 
 class Strided(V):
@@ -358,7 +359,7 @@ def subst(v, m):
     if isinstance(v, Cell):
         return Cell(v.src, subst(v.row, m), subst(v.col, m))
     if isinstance(v, Pad):
-        return Pad(subst(v.base, m), subst(v.left, m), subst(v.right, m), v.mode)
+        return Pad(subst(v.base, m), subst(v.left, m), subst(v.right, m), v.mode, v.rows)
     if isinstance(v, Strided):
         return Strided(subst(v.base, m), [subst(x, m) for x in v.shape], v.unit)
     if isinstance(v, CallV):
@@ -437,8 +438,10 @@ def shape_of(v):
         return [v.length()]
     if isinstance(v, Pad):
         b = shape_of(v.base)
-        if b and len(b) == 1 and b[0] is not None:
+        if b and len(b) == 1 and b[0] is not None and not v.rows:
             return [b[0] + v.left + v.right]
+        if b and len(b) == 2 and b[1] is not None and v.rows:
+            return [b[0], b[1] + v.left + v.right]
         return None
     if isinstance(v, Sub):
         b = shape_of(v.base)
@@ -528,6 +531,9 @@ class XLoop(LoopCtx):
         LoopCtx.__init__(self, var, it, node)
         self.atoms = dict(atoms or {})
         self.kind = kind
+        self.over = None  # index loop ``for k in range(len(T))``: the sequence T
+        self.counters = ()  # locals that count the iterations (i = c0 + position)
+        self.bound_names = ()  # names bound by the loop header
 
     def __eq__(self, o):
         return isinstance(o, LoopCtx) and o.node is self.node
@@ -562,6 +568,7 @@ class XInterp(Interp):
         self._recv = {}  # id(receiver expression) -> value, while the enclosing call is being evaluated
         self.derived = {}  # derived symbol -> symbols it is computed from
         self.celllens = {}  # length symbol -> Cell
+        self.lenof = {}  # length symbol -> the sequence value it measures
         self._in_handler = 0
         self.gfacts = Facts()  # facts that define symbols (ranges of loop variables, floors, random draws, cell lengths)
         self.maxlen_syms = {}
@@ -634,6 +641,10 @@ class XInterp(Interp):
         if isinstance(node, ast.FunctionDef):
             st.env[node.name] = LocalFn(node, st.env, frame.module, frame.cls, frame.defcls, frame.func)
             return [(st, ("fall",))]
+        if isinstance(node, ast.While):
+            r = self._while(node, st, frame)
+            if r is not None:
+                return r
         if isinstance(node, ast.Try) and node.handlers:
             # the handlers are interpreted too (from the state before the try) so that what they do is seen by the
             # rules; their traces are not continued (the normal path carries the analysis)
@@ -814,6 +825,8 @@ class XInterp(Interp):
 
     def elem_at(self, seq, idx, st):
         """Element ``idx`` of a sequence value."""
+        if isinstance(seq, (Rows, Pieces, Cols, EVec)):
+            return self.make_sub(seq, [("i", idx)], "item", st)
         if isinstance(seq, Rng):
             return seq.lo + idx if seq.step == ONE else Opq("elem", [seq, idx])
         if isinstance(seq, AccList):
@@ -841,6 +854,65 @@ class XInterp(Interp):
             return x.elem
         return Opq("elem", [x])
 
+    def _position(self, lc):
+        """Affine form of the 0-based iteration number of a loop, or None."""
+        if lc.var is None:
+            return None
+        if isinstance(lc.it, Rng):
+            return lc.var - lc.it.lo if lc.it.step == ONE else None
+        if reordered(lc.it) is not None:
+            return None
+        return lc.var
+
+    def _is_counter(self, body, name):
+        """``name`` is advanced by exactly one ``name += 1`` that every iteration executes (and nothing else writes it)."""
+        writes = [n for n in ast.walk(ast.Module(body=list(body), type_ignores=[])) if isinstance(n, ast.Name) and n.id == name and isinstance(n.ctx, (ast.Store, ast.Del))]
+        augs = [n for n in ast.walk(ast.Module(body=list(body), type_ignores=[])) if isinstance(n, ast.AugAssign) and isinstance(n.target, ast.Name) and n.target.id == name]
+        if len(writes) != 1 or len(augs) != 1 or not isinstance(augs[0].op, ast.Add) \
+                or not (isinstance(augs[0].value, ast.Constant) and augs[0].value.value == 1 and not isinstance(augs[0].value.value, bool)):
+            return False
+        g = CFG(_Body(body))
+        tgt = [nd for nd in g.nodes if nd.stmt is augs[0]]
+        if not tgt or not g.must_pass(lambda nd: nd is tgt[0]):
+            return False
+        # a ``continue`` / ``break`` of this loop would end the iteration without reaching the increment
+        stack = list(body)
+        while stack:
+            x = stack.pop()
+            if isinstance(x, (ast.Continue, ast.Break)):
+                return False
+            if isinstance(x, (ast.For, ast.While, ast.FunctionDef, ast.ClassDef)):
+                continue
+            for f_ in ("body", "orelse", "finalbody"):
+                stack.extend(getattr(x, f_, []) or [])
+            for h in getattr(x, "handlers", []) or []:
+                stack.extend(h.body)
+        return True
+
+    def _enter_loop(self, node, lc, header_names, st, body_st):
+        """Bind counters, make the other loop-carried locals opaque; returns the counters found."""
+        pos = self._position(lc)
+        counters = []
+        for nm in carried_names(node.body, header_names):
+            cur = body_st.env.get(nm)
+            if pos is not None and as_lin_val(cur) is not None and self._is_counter(node.body, nm):
+                body_st.env[nm] = as_lin_val(cur) + pos
+                counters.append(nm)
+            elif not isinstance(cur, (AccList, Buf)):
+                body_st.env[nm] = Opq("loop-carried:" + nm)
+        lc.counters = tuple(counters)
+        lc.bound_names = tuple(header_names)
+        if isinstance(lc.it, Rng) and lc.it.lo == ZERO and lc.it.step == ONE and _one_sym(lc.it.hi) in self.lenof \
+                and lc.it.hi == Lin.sym(_one_sym(lc.it.hi)):
+            lc.over = self.lenof[_one_sym(lc.it.hi)]
+        return counters
+
+    def _leave_loop(self, node, lc, st, after, counters):
+        n_ = self.position_count(lc)
+        for nm in counters:
+            cur = as_lin_val(st.env.get(nm))
+            after.env[nm] = (cur + n_) if (cur is not None and n_ is not None) else Opq("loop-carried:" + nm)
+
     def _for(self, node, st, frame):
         it = self.ev(node.iter, st, frame)
         from ..absint import Gen
@@ -850,20 +922,64 @@ class XInterp(Interp):
         body_st = st.copy()
         var, elem, lc = self._loop_elem(it, node.target, body_st, frame, node, "for")
         body_st.loops = list(st.loops) + [lc]
-        for nm in carried_names(node.body, target_names(node.target)):
-            if not isinstance(body_st.env.get(nm), (AccList, Buf)):
-                body_st.env[nm] = Opq("loop-carried:" + nm)
+        counters = self._enter_loop(node, lc, target_names(node.target), st, body_st)
         self.assign(node.target, elem, body_st, frame)
         self.record("loop", node, it, None, None, body_st, frame)
         after = st.copy()
         self._havoc(node.body, after)
         if isinstance(node.target, ast.Name):
             after.env[node.target.id] = Opq("loop-var-after:" + node.target.id)
+        self._leave_loop(node, lc, st, after, counters)
         for s, o in self.block(node.body, body_st, frame):
             if o[0] == "return":
                 results.append((s, o))
         if node.orelse:
             return results + self.block(node.orelse, after, frame)
+        return results + [(after, ("fall",))]
+
+    def _while(self, node, st, frame):
+        """Counting ``while`` loops, read as the ``for`` loop they spell:
+        ``i = c; while i < N: ...; i += 1``  and  ``while len(acc) < N: acc.append(..)``."""
+        t = node.test
+        if node.orelse or not (isinstance(t, ast.Compare) and len(t.ops) == 1 and isinstance(t.ops[0], (ast.Lt, ast.Gt))):
+            return None
+        small, big = (t.left, t.comparators[0]) if isinstance(t.ops[0], ast.Lt) else (t.comparators[0], t.left)
+        hi = as_lin_val(self.ev(big, st, frame))
+        if hi is None:
+            return None
+        counter, acc, lo = None, None, None
+        if isinstance(small, ast.Name) and as_lin_val(st.env.get(small.id)) is not None and self._is_counter(node.body, small.id):
+            counter, lo = small.id, as_lin_val(st.env[small.id])
+        elif isinstance(small, ast.Call) and dotted(small.func) == "len" and len(small.args) == 1 and not small.keywords:
+            v = self.ev(small.args[0], st, frame)
+            if isinstance(v, AccList) and not v.appends and not v.other:
+                acc, lo = v, ZERO
+        if lo is None:
+            return None
+        self.uid += 1
+        var = Lin.sym("%s#%d" % (counter or "k", self.uid))
+        body_st = st.copy()
+        self.gfact(body_st, lo, "<=", var, "loop range lower bound")
+        self.gfact(body_st, var, "<=", hi - 1, "loop range upper bound")
+        lc = XLoop(var, Rng(lo, hi), node, st.atoms, "for")
+        body_st.loops = list(st.loops) + [lc]
+        counters = self._enter_loop(node, lc, (counter,) if counter else (), st, body_st)
+        if counter:
+            body_st.env[counter] = var
+        self.record("loop", node, lc.it, None, None, body_st, frame)
+        after = st.copy()
+        self._havoc(node.body, after)
+        self._leave_loop(node, lc, st, after, counters)
+        if counter:
+            after.env[counter] = hi
+        results = []
+        for s, o in self.block(node.body, body_st, frame):
+            if o[0] == "return":
+                results.append((s, o))
+        if acc is not None:
+            own = [x for x in acc.appends if lc in x[1]]
+            if len(own) != 1 or acc.other:
+                acc.other.append(("while-fill", node))
         return results + [(after, ("fall",))]
 
     def _havoc(self, stmts, st):
@@ -999,6 +1115,12 @@ class XInterp(Interp):
         items = sl.elts if isinstance(sl, ast.Tuple) else [sl]
         out = []
         for it in items:
+            if isinstance(it, ast.Call) and isinstance(it.func, ast.Name) and it.func.id == "slice" and "slice" not in st.env \
+                    and not it.keywords and 1 <= len(it.args) <= 3 and self.repo.resolve_name(frame.module, "slice") is None:
+                a_ = list(it.args)
+                lo_, hi_, st_ = (None, a_[0], None) if len(a_) == 1 else (a_[0], a_[1], a_[2] if len(a_) == 3 else None)
+                none = lambda x: x is None or isinstance(x, ast.Constant) and x.value is None  # noqa: E731
+                it = ast.Slice(lower=None if none(lo_) else lo_, upper=None if none(hi_) else hi_, step=None if none(st_) else st_)
             if isinstance(it, ast.Slice):
                 lo = self.ev(it.lower, st, frame) if it.lower is not None else None
                 hi = self.ev(it.upper, st, frame) if it.upper is not None else None
@@ -1037,7 +1159,7 @@ class XInterp(Interp):
             how, b = b.how, b.base
         if isinstance(e.slice, ast.Slice) and e.slice.step is not None and isinstance(b, NDS + (AccList, ListV)):
             return Opq("slice-step", [b])
-        if isinstance(b, NDS + (AccList, ListV, Piece, Row, Rows, Pieces, Cols)):
+        if isinstance(b, NDS + (AccList, ListV, Piece, Row, Rows, Pieces, Cols, EVec)):
             spec = self.parse_spec(e.slice, st, frame)
             r = self.make_sub(b, spec, how, st)
             self.record("load", e, b, spec, r, st, frame, how)
@@ -1078,6 +1200,17 @@ class XInterp(Interp):
                 return base.start()
             if c in (1, -1):
                 return base.end()
+        if isinstance(base, Pad) and base.rows and spec and spec[0][0] == "i":
+            row = Pad(self.make_sub(base.base, [spec[0]], how, st), base.left, base.right, base.mode, False)
+            return self.make_sub(row, spec[1:], how, st) if spec[1:] else row
+        if len(spec) == 1 and spec[0][0] == "i" and isinstance(base, (Rows, Pieces, Cols, EVec)):
+            if isinstance(base, Rows):
+                return Row(base, spec[0][1])
+            if isinstance(base, Pieces):
+                return Piece(base, spec[0][1])
+            if isinstance(base, EVec):
+                return base.elem
+            return Tup([self._generic_elem(x) for x in base.items])
         if isinstance(base, ListV) and len(spec) == 1 and spec[0][0] == "i" and base.var is not None:
             return subst(base.elem, {_one_sym(base.var): spec[0][1]})
         if isinstance(base, AccList) and len(spec) == 1 and spec[0][0] == "i":
@@ -1329,9 +1462,15 @@ class XInterp(Interp):
                 left = right = as_lin_val(pw)
             elif isinstance(pw, Tup) and len(pw.items) == 2 and all(as_lin_val(x) is not None for x in pw.items):
                 left, right = (as_lin_val(x) for x in pw.items)
+            rows = False
+            if isinstance(pw, Tup) and len(pw.items) == 2 and all(isinstance(x, Tup) and len(x.items) == 2 for x in pw.items):
+                first = [as_lin_val(x) for x in pw.items[0].items]
+                last = [as_lin_val(x) for x in pw.items[1].items]
+                if first == [ZERO, ZERO] and None not in last:
+                    left, right, rows = last[0], last[1], True
             mode = b.get("mode", K("constant"))
             if left is not None and isinstance(mode, K):
-                return Pad(b.get("array"), left, right, mode.v)
+                return Pad(b.get("array"), left, right, mode.v, rows)
             return Opq("pad", args)
         if ext == "numpy.lib.stride_tricks.as_strided":
             b = self.bind_ext(ext, args, kwargs)
@@ -1412,8 +1551,9 @@ class XInterp(Interp):
                 n = self.acc_len(args[0])
                 if n is not None:
                     return n
-            if isinstance(args[0], (Rows, Pieces, Cols)) or isinstance(args[0], CallV) and not args[0].loops:
+            if isinstance(args[0], (Rows, Pieces, Cols, EVec)) or isinstance(args[0], CallV) and not args[0].loops:
                 # a sequence of unknown length: one symbol per sequence value
+                self.lenof["len(%r)" % (args[0],)] = args[0]
                 return Lin.sym("len(%r)" % (args[0],))
         if isinstance(call.func, ast.Attribute):
             recv = self.ev(call.func.value, st, frame)
@@ -1544,6 +1684,8 @@ def seq_len(v, it=None):
     if isinstance(v, ZipV):
         ls = [seq_len(x, it) for x in v.items]
         return ls[0] if ls and all(x is not None and x == ls[0] for x in ls) else None
+    if isinstance(v, (Rows, Pieces, Cols, EVec)) or isinstance(v, CallV) and not v.loops:
+        return Lin.sym("len(%r)" % (v,))
     return None
 
 
